@@ -18,25 +18,29 @@ CACHE = os.path.join(VERIF, '.cache')
 
 W2C2_DEFS = ['-DHAS_PTHREAD=1', '-DHAS_UNISTD=1', '-DHAS_GETOPT=1', '-DHAS_LIBGEN=1', '-DHAS_STRDUP=1', '-DHAS_GLOB=1']
 
+# The project's own build files compile everything as C90 (CMAKE_C_STANDARD 90 -> -std=gnu90; the Makefile uses -std=c89), so the
+# variants do the same: code that depends on the language level (macros such as FLT_DECIMAL_DIG, inline, ...) takes the branch
+# a user's build takes.  The sanitizer variants keep the compiler's default (gnu17), which covers the other branch.
+STD = '-std=gnu90'
 VARIANTS = {
     # name: (compiler, cflags, defs override or None, ldflags)
-    'plain': ('gcc', ['-O1', '-g0', '-w'], None, ['-lpthread', '-lm']),
+    'plain': ('gcc', ['-O1', '-g0', '-w', STD], None, ['-lpthread', '-lm']),
     'asan': ('clang', ['-O1', '-g', '-w', '-fsanitize=address,undefined', '-fno-sanitize-recover=all',
                        '-fno-omit-frame-pointer'], None, ['-lpthread', '-lm']),
     'msan': ('clang', ['-O1', '-g', '-w', '-fsanitize=memory', '-fno-omit-frame-pointer'], None, ['-lpthread', '-lm']),
-    'nopthread': ('gcc', ['-O1', '-g0', '-w'],
+    'nopthread': ('gcc', ['-O1', '-g0', '-w', STD],
                   ['-DHAS_UNISTD=1', '-DHAS_GETOPT=1', '-DHAS_LIBGEN=1', '-DHAS_STRDUP=1', '-DHAS_GLOB=1'], ['-lm']),
-    'nogetopt': ('gcc', ['-O1', '-g0', '-w'],
+    'nogetopt': ('gcc', ['-O1', '-g0', '-w', STD],
                  ['-DHAS_PTHREAD=1', '-DHAS_UNISTD=1', '-DHAS_LIBGEN=1', '-DHAS_STRDUP=1', '-DHAS_GLOB=1'],
                  ['-lpthread', '-lm']),
-    'nolibgen': ('gcc', ['-O1', '-g0', '-w'],
+    'nolibgen': ('gcc', ['-O1', '-g0', '-w', STD],
                  ['-DHAS_PTHREAD=1', '-DHAS_UNISTD=1', '-DHAS_GETOPT=1', '-DHAS_STRDUP=1', '-DHAS_GLOB=1'],
                  ['-lpthread', '-lm']),
-    'nostrdup': ('gcc', ['-O1', '-g0', '-w'],
+    'nostrdup': ('gcc', ['-O1', '-g0', '-w', STD],
                  ['-DHAS_PTHREAD=1', '-DHAS_UNISTD=1', '-DHAS_GETOPT=1', '-DHAS_LIBGEN=1', '-DHAS_GLOB=1'],
                  ['-lpthread', '-lm']),
-    'bigendian': ('gcc', ['-O1', '-g0', '-w', '-DWASM_ENDIAN=1'], None, ['-lpthread', '-lm']),
-    'vsched': ('gcc', ['-O1', '-g0', '-w'], None, ['-lpthread', '-lm']),
+    'bigendian': ('gcc', ['-O1', '-g0', '-w', STD, '-DWASM_ENDIAN=1'], None, ['-lpthread', '-lm']),
+    'vsched': ('gcc', ['-O1', '-g0', '-w', STD], None, ['-lpthread', '-lm']),
 }
 
 ASAN_ENV = {'ASAN_OPTIONS': 'detect_leaks=0:exitcode=99:abort_on_error=0:allocator_may_return_null=1:'
@@ -129,6 +133,7 @@ def w2c2_binary(variant='plain', extra_link=None, extra_name=''):
         return w2c2_binary('vsched', extra_link=['-I', os.path.join(VERIF, 'c'), vs, '-Wl,' + ','.join('--wrap=' + w for w in VSCHED_WRAP)],
                            extra_name='-' + tag)
     cd = cache_dir()
+    extra_name += '-' + hashlib.sha256(repr(VARIANTS[variant]).encode()).hexdigest()[:6]
     out = os.path.join(cd, 'w2c2-' + variant + extra_name)
     if os.path.exists(out):
         os.utime(cd)
